@@ -267,6 +267,7 @@ def r1(ctx):
     store_nodes = g.nodes_for(st)
     store_atoms = {(unparse(t), p) for n in store_nodes for tt, pp in g.edge_guards(n) for t, p in _atoms(tt, pp)}
     copies, other = [], []
+    handed_over = False
     for name, v, s in name_stores(f.node):
         if name != recorded:
             continue
@@ -275,9 +276,11 @@ def r1(ctx):
             copies.append(s)
         elif isinstance(v, ast.Subscript) and dotted(v.value) == f.params[1] and unparse(v.slice) == f"{p_attr}.key":
             pass  # snapshot of the value currently in the instance dict, taken when the caller passed a sentinel
+        elif isinstance(v, ast.Name) and v.id == p_prev and recorded != p_prev:
+            handed_over = True  # parameter of an inlined helper that received the caller's `previous`
         else:
             other.append(unparse(s))
-    ctx.check(recorded == p_prev and not other, f"{f.key}:records-callers-previous",
+    ctx.check((recorded == p_prev or handed_over) and not other, f"{f.key}:records-callers-previous",
               f"the value recorded in committed_state is not the caller's `{p_prev}` (reassigned by {other})",
               f"records parameter `{p_prev}` (or the instance dict's current value when a sentinel was passed)", f.loc)
 
@@ -951,7 +954,9 @@ def r5(ctx):
     loops = [n for n in g.nodes if n.kind == "for" and isinstance(n.stmt.iter, ast.Name) and n.stmt.iter.id in f.params]
     ctx.require(len(loops) == 1 and isinstance(loops[0].stmt.target, ast.Tuple), "_commit_all_states: loop over the (state, dict) pairs not found")
     subj = dotted(loops[0].stmt.target.elts[0])
-    clears = call_nodes(g, lambda c: callee_is(c, f"{subj}.committed_state.clear"))
+    al = {n for n, v in _cs_aliases(f.node).items() if dotted(v) == f"{subj}.committed_state"}   # `cs = state.committed_state`
+    clears = call_nodes(g, lambda c: callee_is(c, f"{subj}.committed_state.clear")
+                        or (isinstance(c.func, ast.Attribute) and c.func.attr == "clear" and isinstance(c.func.value, ast.Name) and c.func.value.id in al))
     w = g.must_pass([loops[0].id], [loops[0].id, g.exit], clears, edge_ok=no_exc, start_edge_ok=lambda a, b, l: l == "true")
     ctx.check(bool(clears) and w is None, f"{f.key}:clears-committed_state",
               "an iteration over the flushed states can finish without state.committed_state.clear(): the state keeps its history and the next "
@@ -964,7 +969,9 @@ def r5(ctx):
     good, w = False, None
     for n in floops:
         kv = n.stmt.target.id
-        pops = call_nodes(g, lambda c: callee_is(c, "self.committed_state.pop") and bool(c.args) and dotted(c.args[0]) == kv)
+        al = {n_ for n_, v in _cs_aliases(f.node).items() if dotted(v) == "self.committed_state"}
+        pops = call_nodes(g, lambda c: (callee_is(c, "self.committed_state.pop") or (isinstance(c.func, ast.Attribute) and c.func.attr == "pop" and isinstance(c.func.value, ast.Name)
+                                                                                     and c.func.value.id in al)) and bool(c.args) and dotted(c.args[0]) == kv)
         if pops:
             w = g.must_pass([n.id], [n.id, g.exit], pops, edge_ok=no_exc, start_edge_ok=lambda a, b, l: l == "true")
             good = good or w is None
@@ -1051,3 +1058,212 @@ R.mutant("benign-collection-locals-renamed", ATTR, chain(
         "            now = set(dict(current_states))\n            before = set(dict(original_states))\n            _n = len(now)\n\n            return cls(\n                [obj for st_, obj in current_states if st_ not in before],\n                [obj for st_, obj in current_states if st_ in before],\n                [obj for st_, obj in original_states if st_ not in now],\n            )\n")), None)
 R.mutant("benign-modified-event-guard-nested", STATE, sub("            if attr.key not in self.committed_state or is_userland:\n                if collection:\n", "            first_change = attr.key not in self.committed_state\n            if not (attr.key in self.committed_state and not is_userland):\n                if collection:\n"), None)
 R.mutant("benign-commit-all-reordered", STATE, sub("            state.committed_state.clear()\n\n            if \"_pending_mutations\" in state_dict:\n                del state_dict[\"_pending_mutations\"]\n", "            if \"_pending_mutations\" in state_dict:\n                del state_dict[\"_pending_mutations\"]\n\n            state.committed_state.clear()\n"), None)
+R.mutant('benign-rfI_4-scalar-history-membership-and-early-returns', ATTR,
+         sub('        state: InstanceState[Any],\n'
+             '        current: Any,\n'
+             '    ) -> History:\n'
+             '        original = state.committed_state.get(attribute.key, _NO_HISTORY)\n'
+             '\n'
+             '        deleted: Union[Tuple[()], List[Any]]\n'
+             '\n'
+             '        if original is _NO_HISTORY:\n'
+             '            if current is NO_VALUE:\n'
+             '                return cls((), (), ())\n'
+             '            else:\n'
+             '                return cls((), [current], ())\n'
+             "        # don't let ClauseElement expressions here trip things up\n"
+             '        elif (\n'
+             '            current is not NO_VALUE\n'
+             '            and attribute.is_equal(current, original) is True\n'
+             '        ):\n'
+             '            return cls((), [current], ())\n'
+             '        else:\n'
+             '            # current convention on native scalars is to not\n'
+             '            # include information\n'
+             '            # about missing previous value in "deleted", but\n'
+             '            # we do include None, which helps in some primary\n'
+             '            # key situations\n'
+             '            if id(original) in _NO_STATE_SYMBOLS:\n'
+             '                deleted = ()\n'
+             '                # indicate a "del" operation occurred when we don\'t have\n'
+             '                # the previous value as: ([None], (), ())\n'
+             '                if id(current) in _NO_STATE_SYMBOLS:\n'
+             '                    current = None\n'
+             '            else:\n'
+             '                deleted = [original]\n'
+             '            if current is NO_VALUE:\n'
+             '                return cls((), (), deleted)\n'
+             '            else:\n'
+             '                return cls([current], (), deleted)\n',
+        '        state: InstanceState[Any],\n'
+             '        current: Any,\n'
+             '    ) -> History:\n'
+             '        committed_state = state.committed_state\n'
+             '        attr_key = attribute.key\n'
+             '        if attr_key in committed_state:\n'
+             '            original = committed_state[attr_key]\n'
+             '        else:\n'
+             '            original = _NO_HISTORY\n'
+             '\n'
+             '        deleted: Union[Tuple[()], List[Any]]\n'
+             '\n'
+             '        if original is _NO_HISTORY:\n'
+             '            # no change recorded since load; "current" is the unchanged value\n'
+             '            if current is NO_VALUE:\n'
+             '                return cls((), (), ())\n'
+             '            return cls((), [current], ())\n'
+             '\n'
+             "        # don't let ClauseElement expressions here trip things up\n"
+             '        if current is not NO_VALUE:\n'
+             '            if attribute.is_equal(current, original) is True:\n'
+             '                return cls((), [current], ())\n'
+             '\n'
+             '        # current convention on native scalars is to not\n'
+             '        # include information\n'
+             '        # about missing previous value in "deleted", but\n'
+             '        # we do include None, which helps in some primary\n'
+             '        # key situations\n'
+             '        if id(original) in _NO_STATE_SYMBOLS:\n'
+             '            deleted = ()\n'
+             '            # indicate a "del" operation occurred when we don\'t have\n'
+             '            # the previous value as: ([None], (), ())\n'
+             '            if id(current) in _NO_STATE_SYMBOLS:\n'
+             '                current = None\n'
+             '        else:\n'
+             '            deleted = [original]\n'
+             '        if current is NO_VALUE:\n'
+             '            return cls((), (), deleted)\n'
+             '        return cls([current], (), deleted)\n'), None)
+R.mutant('benign-rfI_5-state-or-none-helper', ATTR, chain(
+    sub('class History(NamedTuple):\n',
+        'def _state_or_none(obj: Any) -> Optional[InstanceState[Any]]:\n'
+             '    """Return the InstanceState for a collection member, passing None\n'
+             '    through as None."""\n'
+             '\n'
+             '    return (obj is not None) and instance_state(obj) or None\n'
+             '\n'
+             '\n'
+             'class History(NamedTuple):\n'),
+    sub('            [\n'
+             '                (c is not None) and instance_state(c) or None\n'
+             '                for c in self.added\n'
+             '            ],\n'
+             '            [\n'
+             '                (c is not None) and instance_state(c) or None\n'
+             '                for c in self.unchanged\n'
+             '            ],\n'
+             '            [\n'
+             '                (c is not None) and instance_state(c) or None\n'
+             '                for c in self.deleted\n'
+             '            ],\n',
+        '            [_state_or_none(c) for c in self.added],\n'
+             '            [_state_or_none(c) for c in self.unchanged],\n'
+             '            [_state_or_none(c) for c in self.deleted],\n'),
+    sub('        elif original is _NO_HISTORY:\n'
+             '            return cls((), list(current), ())\n'
+             '        else:\n'
+             '            current_states = [\n'
+             '                ((c is not None) and instance_state(c) or None, c)\n'
+             '                for c in current\n'
+             '            ]\n'
+             '            original_states = [\n'
+             '                ((c is not None) and instance_state(c) or None, c)\n'
+             '                for c in original\n'
+             '            ]\n'
+             '\n'
+             '            current_set = dict(current_states)\n'
+             '            original_set = dict(original_states)\n'
+             '\n'
+             '            return cls(\n'
+             '                [o for s, o in current_states if s not in original_set],\n'
+             '                [o for s, o in current_states if s in original_set],\n'
+             '                [o for s, o in original_states if s not in current_set],\n',
+        '        elif original is _NO_HISTORY:\n'
+             '            return cls((), list(current), ())\n'
+             '        else:\n'
+             '            current_states = [(_state_or_none(c), c) for c in current]\n'
+             '            original_states = [(_state_or_none(c), c) for c in original]\n'
+             '\n'
+             '            current_by_state = dict(current_states)\n'
+             '            original_by_state = dict(original_states)\n'
+             '\n'
+             '            return cls(\n'
+             '                [o for s, o in current_states if s not in original_by_state],\n'
+             '                [o for s, o in current_states if s in original_by_state],\n'
+             '                [o for s, o in original_states if s not in current_by_state],\n')), None)
+R.mutant('benign-rfI_6-modified-event-aliases', STATE,
+         sub('        if attr:\n'
+             '            if not attr.send_modified_events:\n'
+             '                return\n'
+             '            if is_userland and attr.key not in dict_:\n'
+             '                raise sa_exc.InvalidRequestError(\n'
+             '                    "Can\'t flag attribute \'%s\' modified; it\'s not present in "\n'
+             '                    "the object state" % attr.key\n'
+             '                )\n'
+             '            if attr.key not in self.committed_state or is_userland:\n'
+             '                if collection:\n'
+             '                    if TYPE_CHECKING:\n'
+             '                        assert is_collection_impl(attr)\n'
+             '                    if previous is NEVER_SET:\n'
+             '                        if attr.key in dict_:\n'
+             '                            previous = dict_[attr.key]\n'
+             '\n'
+             '                    if previous not in (None, NO_VALUE, NEVER_SET):\n'
+             '                        previous = attr.copy(previous)\n'
+             '                self.committed_state[attr.key] = previous\n'
+             '\n'
+             '            lkv = self._last_known_values\n'
+             '            if lkv is not None and attr.key in lkv:\n'
+             '                lkv[attr.key] = NO_VALUE\n',
+        '        if attr:\n'
+             '            if not attr.send_modified_events:\n'
+             '                return\n'
+             '            attr_key = attr.key\n'
+             '            if is_userland and attr_key not in dict_:\n'
+             '                raise sa_exc.InvalidRequestError(\n'
+             '                    "Can\'t flag attribute \'%s\' modified; it\'s not present in "\n'
+             '                    "the object state" % attr_key\n'
+             '                )\n'
+             '            committed_state = self.committed_state\n'
+             '            if attr_key not in committed_state or is_userland:\n'
+             '                # first change since load (or explicit flag_modified());\n'
+             '                # capture the previous value as the committed one\n'
+             '                if collection:\n'
+             '                    if TYPE_CHECKING:\n'
+             '                        assert is_collection_impl(attr)\n'
+             '                    if previous is NEVER_SET and attr_key in dict_:\n'
+             '                        previous = dict_[attr_key]\n'
+             '\n'
+             '                    if previous not in (None, NO_VALUE, NEVER_SET):\n'
+             '                        previous = attr.copy(previous)\n'
+             '                committed_state[attr_key] = previous\n'
+             '\n'
+             '            lkv = self._last_known_values\n'
+             '            if lkv is not None and attr_key in lkv:\n'
+             '                lkv[attr_key] = NO_VALUE\n'), None)
+# further benign variants of the same families (rob-I)
+R.mutant("benign-capture-extracted-into-helper", STATE, chain(
+    sub("            if attr.key not in self.committed_state or is_userland:\n                if collection:\n                    if TYPE_CHECKING:\n                        assert is_collection_impl(attr)\n                    if previous is NEVER_SET:\n                        if attr.key in dict_:\n                            previous = dict_[attr.key]\n\n                    if previous not in (None, NO_VALUE, NEVER_SET):\n                        previous = attr.copy(previous)\n                self.committed_state[attr.key] = previous\n",
+        "            if attr.key not in self.committed_state or is_userland:\n                self._capture_original(dict_, attr, previous, collection)\n"),
+    sub("    def _commit(self, dict_: _InstanceDict, keys: Iterable[str]) -> None:\n",
+        "    def _capture_original(self, dict_, attr, previous, collection):  # type: ignore[no-untyped-def]  # noqa: E501\n        if collection:\n            if previous is NEVER_SET:\n                if attr.key in dict_:\n                    previous = dict_[attr.key]\n\n            if previous not in (None, NO_VALUE, NEVER_SET):\n                previous = attr.copy(previous)\n        self.committed_state[attr.key] = previous\n\n    def _commit(self, dict_: _InstanceDict, keys: Iterable[str]) -> None:\n")), None)
+R.mutant("benign-writeonly-capture-through-alias", WRITEONLY,
+         sub("        if self.key not in state.committed_state:\n            state.committed_state[self.key] = self.collection_history_cls(\n                self, state, PassiveFlag.PASSIVE_NO_FETCH\n            )\n",
+             "        committed = state.committed_state\n        if self.key in committed:\n            pass\n        else:\n            committed[self.key] = self.collection_history_cls(\n                self, state, PassiveFlag.PASSIVE_NO_FETCH\n            )\n"), None)
+R.mutant("benign-object-history-conditional-lookup", ATTR,
+         sub("        if original is _NO_HISTORY:\n            original = state.committed_state.get(attribute.key, _NO_HISTORY)\n\n        if original is _NO_HISTORY:\n            if current is NO_VALUE:\n                return cls((), (), ())\n            else:\n                return cls((), [current], ())\n        elif current is original and current is not NO_VALUE:\n",
+             "        if original is _NO_HISTORY:\n            recorded = state.committed_state\n            original = (\n                recorded[attribute.key]\n                if attribute.key in recorded\n                else _NO_HISTORY\n            )\n\n        if original is _NO_HISTORY:\n            if current is NO_VALUE:\n                return cls((), (), ())\n            else:\n                return cls((), [current], ())\n        elif current is original and current is not NO_VALUE:\n"), None)
+R.mutant("benign-commit-pops-through-alias", STATE,
+         sub("        for key in keys:\n            self.committed_state.pop(key, None)\n\n        self.expired = False\n",
+             "        committed = self.committed_state\n        for key in keys:\n            committed.pop(key, None)\n\n        self.expired = False\n"), None)
+# the followed helper / alias must still be judged
+R.mutant("capture-helper-called-unguarded", STATE, chain(
+    sub("            if attr.key not in self.committed_state or is_userland:\n                if collection:\n                    if TYPE_CHECKING:\n                        assert is_collection_impl(attr)\n                    if previous is NEVER_SET:\n                        if attr.key in dict_:\n                            previous = dict_[attr.key]\n\n                    if previous not in (None, NO_VALUE, NEVER_SET):\n                        previous = attr.copy(previous)\n                self.committed_state[attr.key] = previous\n",
+        "            if attr.key in dict_ or is_userland:\n                self._capture_original(dict_, attr, previous, collection)\n"),
+    sub("    def _commit(self, dict_: _InstanceDict, keys: Iterable[str]) -> None:\n",
+        "    def _capture_original(self, dict_, attr, previous, collection):  # type: ignore[no-untyped-def]  # noqa: E501\n        if collection:\n            if previous is NEVER_SET:\n                if attr.key in dict_:\n                    previous = dict_[attr.key]\n\n            if previous not in (None, NO_VALUE, NEVER_SET):\n                previous = attr.copy(previous)\n        self.committed_state[attr.key] = previous\n\n    def _commit(self, dict_: _InstanceDict, keys: Iterable[str]) -> None:\n")), "C36-R1")
+R.mutant("alias-insertion-outside-owners", "orm/persistence.py",
+         sub("            state.committed_state.pop(pkey, None)\n", "            recorded = state.committed_state\n            recorded[pkey] = params[c.key]\n"), "C36-R1")
+R.mutant("scalar-history-membership-form-inverted", ATTR,
+         sub("        original = state.committed_state.get(attribute.key, _NO_HISTORY)\n\n        deleted: Union[Tuple[()], List[Any]]\n",
+             "        committed_state = state.committed_state\n        if attribute.key not in committed_state:\n            original = NO_VALUE\n        else:\n            original = committed_state[attribute.key]\n\n        deleted: Union[Tuple[()], List[Any]]\n"), "C36-R3")
